@@ -169,12 +169,12 @@ def parseConditional : Nat → Nat → Node → List Token → Res Node
       if (cur ts1).is .operator ":" then
         (next ts1).bind fun _ ts2 =>
         (parseExpression f d 0 ts2).bind fun e2 ts3 =>
-        parseConditional f d (.cond {} node node e2) ts3
+        parseConditional f d (.cond (mk (cur ts).loc) node node e2) ts3
       else
         (parseExpression f d 0 ts1).bind fun e1 ts2 =>
         (expect .operator ":" ts2).bind fun _ ts3 =>
         (parseExpression f d 0 ts3).bind fun e2 ts4 =>
-        parseConditional f d (.cond {} node e1 e2) ts4
+        parseConditional f d (.cond (mk (cur ts).loc) node e1 e2) ts4
     else .ok node ts
 
 def parsePrimaryExpression : Nat → Nat → List Token → Res Node
